@@ -2,7 +2,8 @@
 
 Model:    lean/DaskModel/Model/Counting.lean (searchsorted block combination, bincount/histogram merges,
           _unique_internal applied per chunk and again on the concatenation, nonzero offsets, coarsen windows),
-          Model/CoarsenAlign.lean (aligned_coarsen_chunks, da.coarsen incl. the declared chunks),
+          Model/CoarsenAlign.lean (aligned_coarsen_chunks, da.coarsen incl. the declared chunks), Model/Coarsen2D.lean
+          (da.coarsen over both axes of a 2-d array: grid of blocks, tiling),
           Model/HistogramDD.lean (histogramdd / histogram2d), Model/CountingSelect.lean (digitize, compress, extract),
           Model/RavelIndex.lean (ravel_multi_index / unravel_index, argwhere / flatnonzero / nonzero)
 Theorems: lean/DaskModel/Props/C27.lean
@@ -42,10 +43,12 @@ LEVEL_TEXT = ("Lean 4 theorems, for every chunking (zero-length chunks included)
               "(for EVERY tie-breaking of np.argsort, argsort_order_valid: never raises; positive multiples of the factor then "
               "the remainder; same total; (0,) for an empty axis), "
               "aligned_coarsen_chunks_fixpoint, coarsen_any_chunking (guard + alignment + rechunk + block-wise chunk.coarsen = "
-              "chunk.coarsen of the whole axis for EVERY chunking), coarsen_rejects, coarsen_declared_chunks, coarsen_den. "
-              "All over exact ordered values (Nat) along one axis. Validated against NumPy only, not proved: float data / float "
+              "chunk.coarsen of the whole axis for EVERY chunking), coarsen_rejects, coarsen_declared_chunks, coarsen_den, "
+              "coarsen2_den and coarsen2_any_chunking (both axes of a 2-d array, every chunking of rows and columns; polymorphic "
+              "in the element type, so further axes are instances). "
+              "All over exact ordered values (Nat) along one axis unless said otherwise. Validated against NumPy only, not proved: float data / float "
               "bin edges, NaN, weights of histogram(2d/dd), density, bins given as count + range, return_inverse on n-d input, "
-              "n-d coarsen with several axes (the 1-d theorem per axis), compress along an axis of an n-d array and with a "
+              "coarsen of arrays with three or more axes and with reductions other than through the model's sum, compress along an axis of an n-d array and with a "
               "NumPy condition (integer fancy indexing, C20/C21), isin/searchsorted with n-d operands, dtype of every result.")
 LEVEL_NOTE = ("Trusted: Lean kernel + standard axioms; the harness; NumPy's per-chunk kernels (np.searchsorted/bincount/histogram/"
               "histogramdd/unique/digitize/ravel_multi_index/unravel_index) specified by their mathematical meaning in the model "
@@ -506,6 +509,18 @@ def case_misc(ctx, inp):
                    list(r.chunks[i]))
         if x.ndim > 1 and len([1 for i in axes if i < x.ndim]) > 1:
             ctx.branch("coarsen:nd:several-axes")
+        if x.ndim == 2 and inp["red"] == "sum" and x.size and x.min() >= 0:
+            # both axes against the 2-d model (coarsen2_any_chunking); an axis that is not coarsened has factor 1
+            d0, d1 = axes.get(0, 1), axes.get(1, 1)
+            m2 = ctx.lean(Sym("da_coarsen2"), inp["trim"], d0, d1, list(chunks[0]), list(chunks[1]), x.tolist(),
+                          _np_order(list(chunks[0]), d0), _np_order(list(chunks[1]), d1))
+            if m2[0] != "ok":
+                ctx.disagree("coarsen (2-d): the model raises, the code does not", m2, np.asarray(g).tolist())
+            else:
+                ctx.eq("coarsen (2-d): Lean block-wise tiling = Lean chunk.coarsen of the whole array", m2[1], m2[2])
+                ctx.eq("coarsen (2-d): Lean vs dask", [r for r in m2[2]] if e.shape[0] and e.shape[1] else [],
+                       np.asarray(g).tolist() if e.shape[0] and e.shape[1] else [])
+                ctx.branch("coarsen:2d:model")
         if any(_align_class(list(chunks[i]), dv) == "max-multiple-others-not" for i, dv in axes.items() if i < x.ndim):
             ctx.branch("coarsen:nd:max-multiple-others-not")
     elif op in ("compress", "extract"):
@@ -1062,7 +1077,7 @@ def _gen_coarsen1d(ctx, count):
 def _gen_coarsen_nd(ctx, count):
     rng = ctx.rng
     for i in range(count):
-        nd = rng.choice([1, 2, 2, 2, 3])
+        nd = rng.choice([1, 2, 2, 2, 2, 2, 3])
         axes, chunks = {}, []
         for ax in range(nd):
             if rng.random() < 0.8 or ax == 0:
@@ -1082,7 +1097,7 @@ def _gen_coarsen_nd(ctx, count):
         shape = [sum(c) for c in chunks]
         trim = rng.random() < (0.8 if any(shape[int(a)] % dv for a, dv in axes.items()) else 0.4)
         yield "misc", {"op": "coarsen", "x": [rng.randint(0, 9) for _ in range(math.prod(shape))], "shape": shape, "chunks": chunks,
-                       "axes": axes, "red": rng.choice(["sum", "max", "min"]), "trim": trim}
+                       "axes": axes, "red": rng.choice(["sum", "sum", "sum", "max", "min"]), "trim": trim}
 
 
 def _gen_aligned_random(ctx, count):
